@@ -146,6 +146,18 @@ func ProcessBatches(run *core.Run, tag string, batches []*gen.Batch, opts ChainO
 		opts.Watchdog = 15 * time.Minute
 	}
 	var mu sync.Mutex
+	if ob := os.Getenv("VERIF_ONLY_BATCH"); ob != "" && tag == "b" {
+		// development aid: only this batch of the main workload; prints its chains
+		var k int
+		_, _ = fmt.Sscanf(ob, "%d", &k)
+		if k < len(batches) {
+			for _, ch := range batches[k].Chains {
+				fmt.Println("ONLY-BATCH chain", ch.ID, gen.Key(ch.Links))
+			}
+			batches = []*gen.Batch{batches[k]}
+			outs = make([]*BatchOutcome, 1)
+		}
+	}
 	core.Parallel(len(batches), 8, func(i int) {
 		o := processBatch(run, fmt.Sprintf("%s-%03d", tag, i), batches[i], opts)
 		o.Index = i
